@@ -2,6 +2,8 @@ import SeqVerif.Model.C03Codec
 import SeqVerif.Model.C03Lids
 import SeqVerif.Proofs.C03IterTop
 import SeqVerif.Proofs.C03Gen
+import SeqVerif.Proofs.C03IdsProofs
+import SeqVerif.Proofs.C03TokensProofs
 import SeqVerif.Extracted.C03
 /-!
 # C03 - answers do not depend on the fraction form (active = sealed = reloaded = any cache)
@@ -111,6 +113,57 @@ example : iterDesc (genBlocks 3 id [[[1, 2, 3, 4], [5]], [[6, 7]]]) (tableOf (ge
   rfl
 example : (genBlocks 3 id [[[1, 2, 3, 4], [5]], [[6, 7]]]).length = 3 := by decide
 
+/-! ## ID blocks -/
+
+/-- **ID look-ups on the sealed blocks return the sealed ID sequence** (block size >= 1, writer block size = reader
+divisor): `GetMID`, `GetRID` and the document position of every LID -/
+theorem c03_idsBlocks_get (size : Nat) (ids : List ID) (posOf : ID → Nat) (h : IDsInput size ids)
+    (hpos : ∀ x, x ∈ ids → posOf x < W64) (lid : Nat) (hl : lid < ids.length) :
+    getMID size (writeIDs size ids posOf) lid = some ids[lid].1 ∧
+    getRID size (writeIDs size ids posOf) lid = some ids[lid].2 ∧
+    getPos size (writeIDs size ids posOf) lid = some (posOf ids[lid]) :=
+  ⟨getMID_spec size ids posOf h lid hl, getRID_spec size ids posOf h lid hl, getPos_spec size ids posOf h hpos lid hl⟩
+
+/-- **`sealedIDsIndex.LessOrEqual` (with both block-minimum short cuts and the RID = MaxUint64 short cut) equals the
+direct comparison `ids[lid] <= id`** for every descending ID sequence, every block size, every LID and ID;
+beyond `IDsTotal` it answers true -/
+theorem c03_lessOrEqual_eq_direct (size : Nat) (ids : List ID) (posOf : ID → Nat) (h : IDsInput size ids) (hd : DescIDs ids)
+    (lid : Nat) (id : ID) :
+    lessOrEqual size (idsTableOf (writeIDs size ids posOf) ids.length) (writeIDs size ids posOf) lid id =
+      some (if hl : lid < ids.length then idLE ids[lid] id else true) :=
+  lessOrEqual_spec size ids posOf h hd lid id
+
+example : IDsInput 2 [(9, 5), (9, 4), (7, 7), (3, 1)] ∧ DescIDs [(9, 5), (9, 4), (7, 7), (3, 1)] :=
+  ⟨⟨by decide, by decide⟩, by decide⟩
+
+/-! ## token blocks and token table -/
+
+/-- **the token block generator is total** (current code: `blockSize = max(1, len(tids)/blocksCount)`) and its blocks
+are the sorted dictionary cut into consecutive non-empty pieces with consecutive TIDs -/
+theorem c03_tokenBlocks_total (rbs : Nat) (fields : List (List Tok)) :
+    ∃ blocks, genTokenBlocks bsNew rbs fields = .ok blocks ∧ TChain 1 blocks ∧ allTokens blocks = fields.flatten :=
+  genTokenBlocks_spec bsNew rbs bsNew_pos fields
+
+/-- historical counterexample (code before fix fb6d41d, `blockSize = len(tids)/blocksCount`): two tokens of 3 bytes
+with a 2-byte block size (in the real code: two 17,000 byte tokens, 16 KiB blocks) -> the push of an empty block
+panics with index out of range [-1] -/
+theorem c03_tokenBlocks_old_not_total :
+    genTokenBlocks bsOld 2 [[[97, 97, 97], [98, 98, 98]]] = .error "index out of range [-1]" := by rfl
+
+/-- the old rule was total exactly when it never produced 0 -/
+theorem c03_tokenBlocks_old_partial (rbs : Nat) (fields : List (List Tok)) (h : ∀ n c, 1 ≤ bsOld n c) :
+    ∃ blocks, genTokenBlocks bsOld rbs fields = .ok blocks ∧ TChain 1 blocks ∧ allTokens blocks = fields.flatten :=
+  genTokenBlocks_spec bsOld rbs h fields
+
+/-- **`GetValByTID` through the token table and the packed token blocks returns the tid-th token of the sorted
+dictionary**, however the generator's blocks were packed into physical blocks -/
+theorem c03_tokenTable_getVal (rbs base : Nat) (fields : List (List Tok)) (tid : Nat) (h1 : 1 ≤ tid) (h2 : tid ≤ fields.flatten.length) :
+    ∃ blocks, genTokenBlocks bsNew rbs fields = .ok blocks ∧
+      getValByTID base (writeTokens rbs base blocks) tid = fields.flatten[tid - 1]? := by
+  obtain ⟨blocks, hb, hc, ha⟩ := genTokenBlocks_spec bsNew rbs bsNew_pos fields
+  refine ⟨blocks, hb, ?_⟩
+  rw [getValByTID_spec rbs base blocks hc tid h1 (by rw [ha]; exact h2), ha]
+
 /-! ## Obligations on facts re-extracted from /repo on every run -/
 
 open SV.Extracted.C03
@@ -145,5 +198,17 @@ theorem c03_x_lids_at_LIDBlockCap (f : Nat → Nat) (fields : List (List (List N
     iterDesc (genBlocks lidBlockCap f fields) (tableOf (genBlocks lidBlockCap f fields)) tid minL maxL =
       .ok ((((fields.flatten[tid - 1]?).getD []).map f).filter (inWin minL maxL)) :=
   c03_lidsBlocks_iterDesc_eq_filter lidBlockCap f fields tid minL maxL h
+
+/-- the token block size rule in the source is the repaired one (`bsNew`); the theorems above are about it -/
+theorem c03_x_token_block_size_rule :
+    tokenBlockSizeExpr = ["max(1, len(tids)/blocksCount)"] ∧ tokenBlocksCountExpr = ["fieldSize/consts.RegularBlockSize + 1"] := by
+  decide
+
+/-- ID theorems at the extracted `consts.IDsPerBlock` = `consts.IDsBlockSize` -/
+theorem c03_x_ids_at_IDsPerBlock (ids : List ID) (posOf : ID → Nat) (h : IDsInput idsBlockSize ids) (hd : DescIDs ids)
+    (lid : Nat) (id : ID) :
+    lessOrEqual idsPerBlock (idsTableOf (writeIDs idsBlockSize ids posOf) ids.length) (writeIDs idsBlockSize ids posOf) lid id =
+      some (if hl : lid < ids.length then idLE ids[lid] id else true) :=
+  lessOrEqual_spec idsBlockSize ids posOf h hd lid id
 
 end SV.Props.C03
